@@ -318,6 +318,9 @@ _CASES = [  # (program, expected rows or "reject", obligation)
     ("from t\nsort id\nselect {v = f\"{s}\"}\n", [("ab",), ("cd",), ("xa",)], "LF1"),
     ("from t\nsort id\nselect {v = f\"\"}\n", [("",), ("",), ("",)], "LF1"),
     ("from t\nsort id\nselect {v = f\"  {a} \"}\n", [("  7 ",), ("  3 ",), ("  10 ",)], "LF1"),
+    # the text fragments of an f-string are string literals: their escape sequences denote what they denote in a plain string (round-7 seed C08-13)
+    ("from t\nsort id\nselect {v = f\"id:\\t[\\x41]\\\\end{a}\"}\n", [("id:\t[A]\\end7",), ("id:\t[A]\\end3",), ("id:\t[A]\\end10",)], "LF1"),
+    ("from t\nsort id\nselect {v = f\"\\u{e9}{a}\\n\"}\n", [("\u00e97\n",), ("\u00e93\n",), ("\u00e910\n",)], "LF1"),
     ("from t\nsort id\nselect {v = case [a > 8 => 'big', a > 5 => 'mid', true => 'small']}\n", [("mid",), ("small",), ("big",)], "LC1"),
     ("from t\nsort id\nselect {v = case [a > 5 => b, a > 8 => 0 - b]}\n", [(2,), (None,), (4,)], "LC1"),
     ("from t\nsort id\nselect {v = a - b - 1, w = a / b > 1}\n", [(4, 1), (-3, 0), (5, 1)], "LO1"),
